@@ -29,7 +29,7 @@ RULE = ("case = (standalone indicator | Hexital with 1-3 members incl. member ti
         "distinct: case digest.")
 ASSUMPTIONS = ["the list handed to the constructor is adopted by the object by design and is not a 'caller's list' in the property's sense",
                "Candle objects passed to append are adopted (and may be collapsed/converted in place) by design; only dicts and lists are guarded"]
-ENCODINGS = ["candle", "dict", "Dict", "list", "list_ts_first"]
+ENCODINGS = ["candle", "dict", "Dict", "list", "list_ts_first", "dict_iso"]
 
 
 def plan(tier):
@@ -64,10 +64,14 @@ def gen_case(rng, tier, idx):
         left -= k
         for _ in range(rng.randint(0, 4)):
             prog.append({"op": "read", "which": rng.randint(0, 40), "arg": rng.randint(0, 9)})
-    return {"hexital": hexital, "tf": tf, "rows": rows, "members": members, "program": prog, "enc": rng.choice(ENCODINGS)}
+    return {"hexital": hexital, "tf": tf, "rows": rows, "members": members, "program": prog, "enc": rng.choice(ENCODINGS),
+            "ha": hexital and rng.random() < 0.25}
 
 
 def enc_item(row, enc):
+    if enc == "dict_iso":
+        ts, o, h, l, c, v = row
+        return {"open": o, "high": h, "low": l, "close": c, "volume": v, "timestamp": ts if isinstance(ts, str) else ts.isoformat()}
     if enc == "list_ts_first":
         ts, o, h, l, c, v = row
         return [ts_of(ts), o, h, l, c, v]
@@ -81,6 +85,8 @@ def enc_chunk(rows, pos, n, enc, wrap):
 
 def make(case, candles):
     kw = {"timeframe": case["tf"]} if case["tf"] else {}
+    if case.get("ha"):
+        kw["candlestick_type"] = "HA"  # every timeframe must be handed the same (raw) candle whatever the encoding
     if case["hexital"]:
         return Hexital("h", candles, [configs.build(c) for c in case["members"]], **kw)
     return configs.build(case["members"][0], candles=candles, **kw)
@@ -122,7 +128,7 @@ def final_state(case, obj):
 
 def run_case(case):
     rows = case["rows"]
-    stats = {"modes": {"hexital" if case["hexital"] else "indicator": 1}, "encodings": [case["enc"]]}
+    stats = {"modes": {"hexital" if case["hexital"] else "indicator": 1}, "encodings": [case["enc"]], "candlestick": {"HA" if case.get("ha") else "none": 1}}
     viol = []
     reads = 0
     appends = 0
